@@ -1,6 +1,6 @@
 """C05 — numeric instructions compute the specified function (both engines, three operand-lowering paths,
 compared inside Coq against the specification's definitions)."""
-import json, os, time
+import json, os, re, time
 from concurrent.futures import ThreadPoolExecutor
 from vcheck import *
 
@@ -10,8 +10,8 @@ TRAPS = {-1: "integer divide by zero", -2: "integer overflow", -3: "invalid conv
 
 # per-tier harness parameters: (classes, crossed-core budget, random tuples, constant-mode calls, exhaustive 8-bit lanes)
 TIERS = {
-    "quick": dict(classes="int,float,simd,simdf", budget=140, rand=30, const=24, ex8=False),
-    "thorough": dict(classes="int,float,simd,simdf", budget=1200, rand=1500, const=200, ex8=True),
+    "quick": dict(classes="int,float,simd,simdf", budget=120, rand=24, const=16, ext=70, ex8=False),
+    "thorough": dict(classes="int,float,simd,simdf", budget=1200, rand=1500, const=200, ext=0, ex8=True),
 }
 
 
@@ -69,7 +69,7 @@ def run(tier, seed):
     if not binp:
         ck.violation("harness-build", {"kind": "build"}, {"log": log[-3000:]}, no_input=True)
         return ck.finish()
-    cmd = [binp, "-seed", str(seed), "-classes", t["classes"], "-budget", str(t["budget"]), "-rand", str(t["rand"]), "-const", str(t["const"])]
+    cmd = [binp, "-seed", str(seed), "-classes", t["classes"], "-budget", str(t["budget"]), "-rand", str(t["rand"]), "-const", str(t["const"]), "-ext", str(t["ext"])]
     if t["ex8"]:
         cmd.append("-ex8")
     t0 = time.time()
@@ -130,21 +130,39 @@ def run(tier, seed):
         for i in range(0, len(lst), 2):
             mism.append((base + nsh * lst[i], lst[i + 1]))
     ck.extra["model_mismatches"] = len(mism)
-    reported = {}
+    reported, todo = {}, []
     for idx, j in mism:
         k = keys[idx]
         o = obs_lists[idx][j]
         for s in sorted(groups[k][o]):
             eng, mode = SLOTS[s]
-            sig = {"kind": "numeric-result-differs-from-spec", "op": names[k[0]], "engine": eng}
             rk = (names[k[0]], eng)
             reported[rk] = reported.get(rk, 0) + 1
             if reported[rk] > 2 or len(reported) > 40:
                 continue
-            others = {fmt_obs(x): ["%s/%s" % SLOTS[q] for q in sorted(ss)] for x, ss in groups[k].items()}
-            ck.violation(sig["kind"], sig, {"op": names[k[0]], "opid": k[0], "imm": k[1], "operands": [hex(a) for a in k[2]], "mode": mode,
-                                            "observed": fmt_obs(o), "all_observations": others,
-                                            "note": "the specification (coq/Wasm/Numerics*.v, evaluated by vm_compute) does not allow this outcome"})
+            todo.append((k, o, eng, mode))
+    # what the specification prescribes for the reported tuples (printed by Coq, attached to the replay file)
+    expected = {}
+    if todo:
+        uniq = sorted({k for k, _, _, _ in todo})
+        v = ("From Verif Require Import Wasm.NumericsOps.\nFrom Coq Require Import ZArith List.\nImport ListNotations.\nOpen Scope Z_scope.\n"
+             + "".join("Definition E%d := Eval vm_compute in spec_op %d %d [%s].\nPrint E%d.\n" % (i, k[0], k[1], "; ".join(str(a) for a in k[2]), i)
+                       for i, k in enumerate(uniq)))
+        rc, o = coq_eval("c05_expected", v, timeout=600)
+        for i, k in enumerate(uniq):
+            m = re.search(r"E%d\s*=\s*(.*?)\s*:\s*res" % i, o, re.S)
+            if m:
+                txt = " ".join(m.group(1).split())
+                txt = re.sub(r"\b(\d{4,})\b", lambda mm: hex(int(mm.group(1))), txt)
+                expected[k] = txt
+    for k, o, eng, mode in todo:
+        sig = {"kind": "numeric-result-differs-from-spec", "op": names[k[0]], "engine": eng}
+        others = {fmt_obs(x): ["%s/%s" % SLOTS[q] for q in sorted(ss)] for x, ss in groups[k].items()}
+        ck.violation(sig["kind"], sig, {"op": names[k[0]], "opid": k[0], "imm": k[1], "operands": [hex(a) for a in k[2]], "mode": mode,
+                                        "observed": fmt_obs(o), "specified": expected.get(k, "?"), "all_observations": others,
+                                        "note": "the specification (coq/Wasm/Numerics*.v, evaluated by vm_compute) does not allow this outcome; "
+                                                "RBits v = exactly v, RTrap 1/2/3 = divide by zero / integer overflow / invalid conversion, "
+                                                "RNan w canon = a NaN (canonical if canon), RLanes = per lane"})
     ck.extra["mismatching_ops"] = {"%s/%s" % k: v for k, v in reported.items()}
     if not proofs_ok and not ck.violations:
         ck.violation("proof-broken", {"kind": "proof-broken"}, getattr(ck, "proof_failure", {}), no_input=True)
